@@ -9,7 +9,7 @@ git apply "$patch"
 sv=$(mktemp -d "${TMPDIR:-/tmp}/govc-try.XXXXXX"); cp /verif/obligations.lock /verif/known-findings.txt "$sv/"; cp -r /verif/replay "$sv/" 2>/dev/null
 level=proof; case "$prop" in C05|C06|C07|C12|C14) level=other ;; esac
 ( cd /verif && GOFLAGS=-mod=mod GOPROXY=off GOSUMDB=off GOTOOLCHAIN=local ./bin/govc check -verif "$sv" -level "$level" "$prop" "$tier" ); rc=$?
-rm -rf "$sv"
+[ -n "${KEEP_SV:-}" ] && echo "kept $sv" || rm -rf "$sv"
 git apply -R "$patch" || { echo "REVERT FAILED"; git checkout -- $(git diff --name-only); }
 echo "RESULT patch=$patch prop=$prop exit=$rc"
 exit $rc
